@@ -13,6 +13,7 @@ import itertools
 import random
 
 from harness import authenv, simnet
+from txdbus import authentication as A
 from txdbus import client as C
 
 PROP = 'C07'
@@ -419,7 +420,15 @@ class RefServer:
 
 
 def full_handshake(ctx, accept, agree_fd, unix, external_style, case, split_rng=None):
-    s = ClientSession(unix)
+    try:
+        s = ClientSession(unix)
+    except Exception as e:
+        # raised out of connectionMade: the transport would log it and drop the connection - no handshake
+        ctx.count('evaluations')
+        ctx.report('client-raised-on-connect', 'the client raised %r when the connection was made (server accepting %s): no '
+                   'mechanism was offered' % (e, sorted(m.decode() for m in accept)),
+                   {'accept': sorted(m.decode() for m in accept), 'unix': unix}, case)
+        return
     srv = RefServer(accept, agree_fd, external_style)
     ctx.count('evaluations')
     ctx.count('full_handshakes')
@@ -464,6 +473,40 @@ def full_handshake(ctx, accept, agree_fd, unix, external_style, case, split_rng=
                 s.p.auth_calls, s.closed), w, case)
     ctx.distinct('nontrivial_cases', ('full', tuple(sorted(accept)), agree_fd, unix, external_style))
     s.finish()
+
+
+class _Getpass:
+    """Stands for the process environment as the getpass module reports it."""
+
+    def __init__(self, outcome):
+        self.outcome = outcome
+
+    def getuser(self):
+        if isinstance(self.outcome, BaseException):
+            raise self.outcome
+        return self.outcome
+
+
+def login_name_environments(ctx):
+    """The handshake in a process whose login name is unusable - a uid without passwd entry and no LOGNAME/USER (containers
+    started with an arbitrary uid: getpass.getuser() raises), or a non-ASCII login name.  Only DBUS_COOKIE_SHA1 needs the
+    name: against a server that accepts EXTERNAL or ANONYMOUS the handshake completes as always (a server that accepts
+    only the cookie mechanism cannot be satisfied from such a process and is left out)."""
+    saved = A.getpass
+    envs = [('no-login-name', KeyError('getpwuid(): uid not found: 1000730000')), ('non-ascii-login-name', 'j\u00f6rg'),
+            ('os-error', OSError('No username set in the environment')), ('ordinary', 'vuser')]
+    try:
+        for ename, outcome in envs:
+            A.getpass = _Getpass(outcome)
+            for accept in ((b'EXTERNAL',), (b'ANONYMOUS',), (b'EXTERNAL', b'ANONYMOUS'), (b'ANONYMOUS', b'DBUS_COOKIE_SHA1')):
+                for unix in (True, False):
+                    for agree in (True, False):
+                        case = {'kind': 'login-name', 'environment': ename, 'accept': [m.decode() for m in accept],
+                                'unix': unix, 'agree': agree}
+                        full_handshake(ctx, accept, agree, unix, 'data', case)
+                        ctx.count('login_name_environment_handshakes')
+    finally:
+        A.getpass = saved
 
 
 def classify_incomplete(w):
@@ -633,6 +676,7 @@ def run(ctx):
             rotated_cookie(ctx, env)
             floods(ctx)
             custom_preferences(ctx)
+            login_name_environments(ctx)
         ctx.sample({'server_lines': [LINE[s].decode() for s in ('REJECTED', 'DATA_cookie', 'OK_guid', 'AGREE_UNIX_FD')],
                     'transport': 'UNIX'})
     ctx.require(ctx.counters.get('begins', 0) > 10, 'no BEGIN observed')
@@ -645,6 +689,9 @@ def replay(ctx, rp):
         env.write_cookie(COOKIE_CTX.decode(), COOKIE_ID, COOKIE)
         if case.get('kind') == 'custom-preference':
             custom_preferences(ctx)
+            return
+        if case.get('kind') == 'login-name':
+            login_name_environments(ctx)
             return
         if case.get('kind') == 'flood':
             floods(ctx)
